@@ -117,3 +117,16 @@ Proof. exact cond_from_spec_ok. Qed.
 Print Assumptions C16_reparse_condition. Print Assumptions C16_reparse_part_spec. Print Assumptions C16_reparse_path_spec.
 Print Assumptions C16_reparse_part_spec_list. Print Assumptions C16_reparse_rule_spec. Print Assumptions C16_parsed_condition_well_formed.
 Print Assumptions C16_reparse_schema_spec_list. Print Assumptions C16_schema_rules_order. Print Assumptions C16_schema_sort_idempotent.
+
+(* ---- re-parsing a condition spec with NESTED data-path specs (the parser instance NestedIO.condn_from_spec that keeps them):
+   two parses are == .  [no_obj spec]: the spec holds no foreign object (true of every JSON / YAML-like spec: C16N json_pure_no_obj);
+   it rules out a forged copy of the marker the MODEL uses for a nested path (counterexample C16N_forged_marker_counterexample: an
+   artefact of the model, not an input a caller can write). *)
+From Valida Require Import NestedArgs NestedIO.
+From Valida.Proofs Require Import C14NestedProof.
+
+Theorem C16_reparse_condition_nested : forall spec tm c tm' c', wf_val spec = true -> no_obj spec = true ->
+  condn_from_spec spec = Ok (tm, c) -> condn_from_spec spec = Ok (tm', c') ->
+  condn_eqb c' c = true.
+Proof. exact C16N_reparse_cond. Qed.
+Print Assumptions C16_reparse_condition_nested.
